@@ -8,6 +8,8 @@
 #include "Photon.hpp"
 #include "c16_march.hpp"
 #include <atomic>
+#include <sys/wait.h>
+#include <unistd.h>
 #include <chrono>
 #include <omp.h>
 #include <thread>
@@ -69,6 +71,31 @@ public:
   }
   ~Watchdog() { stop(); }
 };
+
+/// replay helper: runs `body` (returns the number of violations it reproduced)
+/// in a child process with an alarm, so that a replayed case that hangs or
+/// crashes is reported instead of taking the replay down
+template < class F > inline void replay_in_child(verif::Result &R, const std::string &key, F body, int seconds = 20) {
+  fflush(nullptr);
+  const pid_t pid = fork();
+  if (pid == 0) {
+    alarm(seconds);
+    const uint64_t n = body();
+    fflush(nullptr);
+    _exit(n ? 1 : 0);
+  }
+  int stt = 0;
+  waitpid(pid, &stt, 0);
+  if (WIFSIGNALED(stt) && WTERMSIG(stt) == SIGALRM) {
+    printf("replay: the call did not return within %d s\n", seconds);
+    R.violation(key, verif::fmt("reproduced: the call does not return (%d s)", seconds));
+  } else if (WIFSIGNALED(stt)) {
+    printf("replay: the process was killed by signal %d\n", WTERMSIG(stt));
+    R.violation(key, verif::fmt("reproduced: killed by signal %d", WTERMSIG(stt)));
+  } else if (WEXITSTATUS(stt) != 0) {
+    R.violation(key, "reproduced (details above)");
+  }
+}
 
 struct RayStats {
   uint64_t rays = 0, rays_wrap = 0, rays_abs = 0, rays_esc = 0, ties = 0, iod = 0;
